@@ -26,6 +26,9 @@ func valName(v Value) string {
 	return ""
 }
 
+// NameOf returns the access-path name of a lazily symbolic value ("" if none).
+func NameOf(v Value) string { return valName(v) }
+
 func objOf(v Value) *Obj {
 	switch x := v.(type) {
 	case *Ptr:
@@ -108,7 +111,7 @@ func (p *Path) take(st *Obj, n *Lin) ([]Seg, bool) {
 
 func okTuple(vals ...Value) Value { return &Tuple{Vs: vals} }
 
-func (e *Engine) doCall(p *Path, fr *frame, c *ssa.CallCommon, at ssa.Instruction) Value {
+func (e *Engine) doCall(p *Path, fr *Frame, c *ssa.CallCommon, at ssa.Instruction) Value {
 	var args []Value
 	for _, a := range c.Args {
 		args = append(args, e.operand(p, fr, a))
@@ -204,7 +207,7 @@ func (e *Engine) callBound(p *Path, fn *ssa.Function, args, bindings []Value, de
 	return e.call(p, fn, args, depth)
 }
 
-func (e *Engine) callStatic(p *Path, fr *frame, c *ssa.CallCommon, fn *ssa.Function, args []Value, at ssa.Instruction, top func(string) Value) Value {
+func (e *Engine) callStatic(p *Path, fr *Frame, c *ssa.CallCommon, fn *ssa.Function, args []Value, at ssa.Instruction, top func(string) Value) Value {
 	name := core.FullName(fn)
 	if v, ok := e.intrinsic(p, fr, name, fn, args, at); ok {
 		return v
@@ -228,7 +231,7 @@ func linOf(v Value) *Lin {
 	return nil
 }
 
-func (e *Engine) builtin(p *Path, fr *frame, name string, args []Value, c *ssa.CallCommon, at ssa.Instruction, top func(string) Value) Value {
+func (e *Engine) builtin(p *Path, fr *Frame, name string, args []Value, c *ssa.CallCommon, at ssa.Instruction, top func(string) Value) Value {
 	switch name {
 	case "len", "cap":
 		switch a := args[0].(type) {
@@ -290,7 +293,7 @@ func (e *Engine) builtin(p *Path, fr *frame, name string, args []Value, c *ssa.C
 	return top("builtin " + name)
 }
 
-func (e *Engine) doAppend(p *Path, fr *frame, args []Value, c *ssa.CallCommon, at ssa.Instruction) Value {
+func (e *Engine) doAppend(p *Path, fr *Frame, args []Value, c *ssa.CallCommon, at ssa.Instruction) Value {
 	st, _ := c.Args[0].Type().Underlying().(*types.Slice)
 	isBytes := false
 	if st != nil {
@@ -359,7 +362,7 @@ func (e *Engine) doAppend(p *Path, fr *frame, args []Value, c *ssa.CallCommon, a
 	return &TopV{"append"}
 }
 
-func (e *Engine) typeAssert(p *Path, fr *frame, x *ssa.TypeAssert) Value {
+func (e *Engine) typeAssert(p *Path, fr *Frame, x *ssa.TypeAssert) Value {
 	v := e.operand(p, fr, x.X)
 	mk := func(val Value, ok *Bool) Value {
 		if x.CommaOk {
@@ -452,7 +455,7 @@ func (e *Engine) assemble(p *Path, bytes []Value, w int, little, signed bool) *I
 	return e.fixLin(p, out)
 }
 
-func (e *Engine) intrinsic(p *Path, fr *frame, name string, fn *ssa.Function, args []Value, at ssa.Instruction) (Value, bool) {
+func (e *Engine) intrinsic(p *Path, fr *Frame, name string, fn *ssa.Function, args []Value, at ssa.Instruction) (Value, bool) {
 	nilErr := &NilV{}
 	switch name {
 	case "bytes.NewReader", "bytes.NewBuffer":
